@@ -149,6 +149,18 @@ class FnGraph:
         return [c for c in ast.walk(n.ast) if isinstance(c, ast.Call)]
 
 
+class _Rooted:
+    """A function graph whose mutation points are restricted to some roots."""
+    def __init__(self, fg, roots):
+        self._fg, self._roots = fg, roots
+
+    def writes(self, nid, roots=None):
+        return self._fg.writes(nid, self._roots)
+
+    def __getattr__(self, name):
+        return getattr(self._fg, name)
+
+
 _GCACHE = {}
 
 
@@ -161,11 +173,14 @@ def graph(idx, fi):
 
 # -------------------------------------------------------------------------------------------------
 
-def atomic(rep, rule, idx, fi, verified=(), enumerate_paths=False, _depth=0):
-    """Validate-before-mutate: no raise point is reachable after a mutation of observable state."""
+def atomic(rep, rule, idx, fi, verified=(), enumerate_paths=False, _depth=0, roots=OBSERVABLE):
+    """Validate-before-mutate: no raise point is reachable after a mutation of observable state.  (`roots`: what counts as
+    observable -- for a constructor only the objects handed in, the half-built instance is dropped with the exception.)"""
     fg = graph(idx, fi)
     g = fg.g
     rep.analysed(fi.site)
+    if roots is not OBSERVABLE:
+        fg = _Rooted(fg, roots)
     muts = [n.id for n in g.nodes if fg.writes(n.id)]
     raisers = {n.id: fg.raises(n.id) for n in g.nodes}
     raisers = {k: v for k, v in raisers.items() if v}
@@ -195,7 +210,7 @@ def atomic(rep, rule, idx, fi, verified=(), enumerate_paths=False, _depth=0):
                             callees.append(t_)
                 resolved = {c_.site for c_ in callees}
                 if _depth < 2 and callees and any(s in resolved for s in callee_sites):
-                    sub_ok = all(atomic(rep, rule, idx, c_, verified, False, _depth + 1) for c_ in callees)
+                    sub_ok = all(atomic(rep, rule, idx, c_, verified, False, _depth + 1, roots) for c_ in callees)
                     if not sub_ok:
                         ok = False
                         continue
@@ -492,6 +507,16 @@ def eventmap_typestate(rep, idx, rule):
         # (c) key is id(src) of the parameter
         rep.check(key == ir.parse("id(src)"), rule, add.site, "table keyed by the identity of the source",
                   f"key is {ir.show(key)}", nontrivial=False)
+        # (d) ... and the object stored under that key is the one the key identifies: otherwise one source reached through two
+        #     objects (itself and a view of it) is numbered twice, and the monitor gives one event two bits
+        stored_obj = val[1][0] if val[0] == 'tuple' and len(val[1]) == 2 else None
+        if key[0] == 'call' and key[1] == ('name', 'id') and len(key[2]) == 1 and stored_obj is not None:
+            same = stored_obj == key[2][0]
+            rep.form(same, rule, add.site, "the source stored is the object whose identity is the key",
+                     f"stores {ir.show(stored_obj)[:70]} under {ir.show(key)}",
+                     wrong=None if same else (f"the table is keyed by the identity of `{ir.show(key[2][0])}` but stores another object "
+                                              f"({ir.show(stored_obj)[:60]}): the same source handed in through two different objects gets two "
+                                              "numbers, so sources and bits no longer correspond one to one"))
     size = cls.method("size")
     if size is not None:
         rets = [s for s in ast.walk(size.node) if isinstance(s, ast.Return)]
